@@ -68,6 +68,8 @@ META = {
                     'starting with "-" is not used on the command line (argparse would read it as an option)',
                     'an input on which the library call itself raises says nothing about CLI == library: only exit status, '
                     'message and absence of output are checked there',
+                    'dask runs with the synchronous scheduler (worker default; DASK_SCHEDULER for the subprocess sample): '
+                    'thread-safety of netCDF4/HDF5 under dask threads is not part of the property',
                     'the in-process run captures stderr by redirecting sys.stderr before main() configures logging; the '
                     'reach monitor does not see the subprocess sample'],
 }
